@@ -247,7 +247,7 @@ fn probe<T: Probe + ?Sized>(r: Option<&T>, base: usize) -> Out {
 
 /// Views the tag at offset 8 of the boot information `region` as family member
 /// `fam` through both public routes.
-fn view(fam: usize, region: &Aligned, loose: &Aligned) -> (Out, Out, Out) {
+fn view(fam: usize, region: &Aligned, loose: &Aligned, over: &Aligned) -> (Out, Out, Out, Out, Out) {
     use mb2_model::panics::catch;
     let base = region.as_ptr() as usize;
     let lbase = (loose.as_ptr() as usize).wrapping_sub(8);
@@ -266,7 +266,24 @@ fn view(fam: usize, region: &Aligned, loose: &Aligned) -> (Out, Out, Out) {
                 probe(Some(g.cast::<$T>()), lbase)
             })
             .unwrap_or(Out::Panic);
-            (a, b, c)
+            // the same memory through the raw-pointer constructor (a structure it
+            // refuses is no view at all: NotFound stands for "refused" here)
+            let d = catch(|| match unsafe { DynSizedStructure::<TagHeader>::ref_from_ptr(core::ptr::NonNull::new(loose.as_ptr() as *mut TagHeader).unwrap()) } {
+                Ok(g) => probe(Some(g.cast::<$T>()), lbase),
+                Err(_) => Out::NotFound,
+            })
+            .unwrap_or(Out::Panic);
+            // a copy of the region whose tag claims more bytes than the region has left
+            // (the region still ends in an end tag, so it loads)
+            let e = catch(|| {
+                let obase = over.as_ptr() as usize;
+                match unsafe { BootInformation::load(over.as_ptr().cast()) } {
+                    Ok(m) => probe(m.get_tag::<$T>(), obase),
+                    Err(_) => Out::NotFound,
+                }
+            })
+            .unwrap_or(Out::Panic);
+            (a, b, c, d, e)
         }};
     }
     match fam {
@@ -346,7 +363,12 @@ pub fn eval(c: &Case, obs: &mut Obs) -> Result<(), String> {
     };
     loose.extend((0..slack).map(|i| marker(c.key ^ 0x51AC, i)));
     let la = Aligned::new(&loose);
-    let (via_get, via_cast, via_slice) = view(c.fam % FAMILY.len(), &a, &la);
+    // (the claimed size: 8, 16 or 24 bytes more than the region has left behind the
+    // tag's start - the padded tag and the end tag)
+    let mut over = region.clone();
+    put32(&mut over, 12, (r8(size) + 8 + 8 * (1 + c.key as usize % 3)) as u32);
+    let oa = Aligned::new(&over);
+    let (via_get, via_cast, via_slice, via_ptr, via_over) = view(c.fam % FAMILY.len(), &a, &la, &oa);
     let natural = if elem == 0 { r8(fixed) } else { 0 };
     let exact_fit = if elem == 0 { size == fixed } else { size >= fixed && (size - fixed) % elem == 0 };
     // a 4-aligned type whose own size is not a multiple of 8 has no tag it could
@@ -380,6 +402,16 @@ pub fn eval(c: &Case, obs: &mut Obs) -> Result<(), String> {
                 }
             }
         }
+    }
+    // raw-pointer route: whatever it does not refuse obeys the same law
+    if let Out::View { off, sov, .. } = via_ptr {
+        if off != 8 || sov != r8(size) {
+            return Err(format!("{name} via ref_from_ptr+cast: tag size {size}, typed view at offset {off} with an in-memory size of {sov} (must be at 8 with {})", r8(size)));
+        }
+    }
+    // a tag that claims more than the region holds can only be rejected
+    if let Out::View { off, sov, .. } = via_over {
+        return Err(format!("{name} via get_tag: the tag claims {} bytes, {} more than the region has left, and is viewed as ({off},{sov}) instead of being rejected", le32(&over, 12), le32(&over, 12) as usize - r8(size) - 8));
     }
     Ok(())
 }
@@ -505,7 +537,7 @@ pub fn subs() -> Vec<Box<dyn Sub>> {
     vec![
         Box::new(PropSub::<Case> {
             name: "custom-family",
-            rule: "34 harness-defined tag types with truthful BASE_SIZE/dst_len (8-aligned: sized with 0..=6 extra words; DST tails with element sizes 1,2,3,4,8,24 behind fixed parts of 8..=24 bytes, alignment-compatible combinations; 4-aligned types that do not embed TagHeader: sized 12..=28 bytes, DST with u32 tail) with custom IDs, viewed through BootInformation::get_tag, DynSizedStructure::cast on the iterated tag, and ref_from_slice over the tag followed by slack bytes (0, 8, .., 32, or exactly enough to make the slice as long as the viewing type) + cast. Enumerated completely: every type x every tag size 8..=96 (thorough 160) x slack {0, 8, up-to-type-size} x payload {markers, all zero}; generated: sizes up to 1024. Oracle: panic, or a view at the tag's address with size_of_val == r8(tag size) whose last field byte aliases the tag; an exactly fitting size must be accepted. Non-trivial = exact fit, or a sized type at a non-matching size; distinct by (type, size)",
+            rule: "34 harness-defined tag types with truthful BASE_SIZE/dst_len (8-aligned: sized with 0..=6 extra words; DST tails with element sizes 1,2,3,4,8,24 behind fixed parts of 8..=24 bytes, alignment-compatible combinations; 4-aligned types that do not embed TagHeader: sized 12..=28 bytes, DST with u32 tail) with custom IDs, viewed through BootInformation::get_tag, DynSizedStructure::cast on the iterated tag, ref_from_slice over the tag followed by slack bytes (0, 8, .., 32, or exactly enough to make the slice as long as the viewing type) + cast, ref_from_ptr on the same memory + cast, and get_tag on a copy of the region whose tag claims 8..24 bytes more than the region has left. Enumerated completely: every type x every tag size 8..=96 (thorough 160) x slack {0, 8, up-to-type-size} x payload {markers, all zero}; generated: sizes up to 1024. Oracle: panic, or a view at the tag's address with size_of_val == r8(tag size) whose last field byte aliases the tag; an exactly fitting size must be accepted. Non-trivial = exact fit, or a sized type at a non-matching size; distinct by (type, size)",
             profiles: Profiles::Both,
             quick: 20000,
             thorough: 300000,
